@@ -3,6 +3,7 @@ package props
 import (
 	"fmt"
 	"sort"
+	"strings"
 	"testing"
 
 	jd "github.com/josephburnett/jd/v2"
@@ -274,12 +275,42 @@ func jdxReadingOf(e ref.PathElem) val.Reading {
 
 func tweakInside(t *rapid.T, v val.V) val.V {
 	switch x := v.(type) {
+	case string:
+		// the nearest other string: one byte changed at the start, in the
+		// middle or at the end, the length kept
+		if len(x) > 0 && gen.Chance(t, "nearString", 70) {
+			at := gen.Pick(t, "changeAt", []int{0, len(x) / 2, len(x) - 1})
+			b := []byte(x)
+			if b[at] < 0x80 {
+				if b[at] == 'q' {
+					b[at] = 'r'
+				} else {
+					b[at] = 'q'
+				}
+				return string(b)
+			}
+		}
+	case float64:
+		if nv, ok := gen.NearScalar(t, x); ok && gen.Chance(t, "nearNumber", 70) {
+			return nv
+		}
 	case []val.V:
+		if len(x) > 0 && gen.Chance(t, "tweakElement", 50) {
+			i := gen.Int(t, "tweakAt", 0, len(x)-1)
+			out := append([]val.V{}, x...)
+			out[i] = tweakInside(t, x[i])
+			return out
+		}
 		return append(append([]val.V{}, x...), "tweak")
 	case map[string]val.V:
 		o := map[string]val.V{}
 		for k, e := range x {
 			o[k] = e
+		}
+		if ks := val.Keys(x); len(ks) > 0 && gen.Chance(t, "tweakMember", 50) {
+			k := ks[gen.Int(t, "tweakKey", 0, len(ks)-1)]
+			o[k] = tweakInside(t, x[k])
+			return o
 		}
 		o["tweak"] = 1.0
 		return o
@@ -383,7 +414,58 @@ func checkC08(c TargetCase, r *rec.Rec) error {
 	return nil
 }
 
+// longMemberCase: a set / multiset hunk that removes (or adds) a long string
+// member; the target holds a string of the same length that differs from it
+// in one byte, instead of it or next to it.
+func longMemberCase(t *rapid.T) TargetCase {
+	opts := gen.Pick(t, "opts", []string{"set", "mset"})
+	n := gen.Pick(t, "longLen", []int{70, 1100, 4200, 9000, 70000})
+	long := strings.Repeat("s", n)
+	at := gen.Pick(t, "twinAt", []int{0, n / 2, n - 1, 2100 % n, (n - 2100 + n) % n})
+	tb := []byte(long)
+	tb[at] = 'q'
+	twin := string(tb)
+	var m1, m2 val.V = long, twin
+	if gen.Chance(t, "inObject", 35) {
+		m1, m2 = map[string]val.V{"s": long}, map[string]val.V{"s": twin}
+	}
+	a := []val.V{m1, "x", 1.0}
+	var b []val.V
+	if gen.Chance(t, "added", 30) {
+		a, b = []val.V{"x", 1.0}, []val.V{"x", 1.0, m1}
+	} else {
+		b = []val.V{"x", 1.0}
+	}
+	var c []val.V
+	switch gen.Int(t, "longTarget", 0, 3) {
+	case 0: // the twin instead of the member
+		for _, e := range a {
+			if val.Equal(e, m1, val.List) {
+				c = append(c, m2)
+			} else {
+				c = append(c, e)
+			}
+		}
+		if len(c) == len(b)-1 || len(a) == 2 {
+			c = append(c, m2)
+		}
+	case 1: // the twin in front of the member
+		c = append([]val.V{m2}, a...)
+	case 2: // the twin behind the member
+		c = append(append([]val.V{}, a...), m2)
+	default:
+		c = append([]val.V{}, a...)
+	}
+	wrap := func(v []val.V) val.V {
+		return map[string]val.V{"k": v}
+	}
+	return TargetCase{A: val.JSON(wrap(a)), B: val.JSON(wrap(b)), Opts: opts, C: val.JSON(wrap(c)), How: "long-member-twin"}
+}
+
 func genC08(t *rapid.T) TargetCase {
+	if gen.Chance(t, "longMember", 3) {
+		return longMemberCase(t)
+	}
 	opts := gen.Pick(t, "opts", c08OptSets)
 	p := profileFor(opts)
 	p.VoidRoot = false
